@@ -201,7 +201,10 @@ def handle (line : String) : String :=
   | [_, optS, progS, evS, inS, orS] =>
     let opts := words optS
     let prog := match parseAll progS with | [p] => toProgram p | _ => { funcs := [], handlers := [], stmts := [] }
-    if optVal opts "terms" == some "1" then
+    if optVal opts "terms" == some "2" then
+      "FNOK " ++ String.ofList (prog.funcs.flatMap (fun f =>
+        [if blockTerms f.body then '1' else '0', if fnOkB false f.body then '1' else '0']))
+    else if optVal opts "terms" == some "1" then
       "TERMS " ++ String.ofList ((flagsProgram prog).map (fun b => if b then '1' else '0'))
     else
     let table := parseOracle orS
